@@ -726,3 +726,54 @@ pub fn truncate(s: &str, n: usize) -> String {
         format!("{}…[{} more bytes]", &s[..end], s.len() - end)
     }
 }
+
+/// Enumeration stage: the body walks a finite domain completely, fills the report and
+/// returns the violations it found as (case, message).
+pub struct EnumStage {
+    pub name: &'static str,
+    pub rule: &'static str,
+    pub body: Box<dyn Fn(&Runtime, &mut StageReport) -> Vec<(Value, String)> + Sync>,
+}
+
+impl Stage for EnumStage {
+    fn name(&self) -> String {
+        self.name.to_string()
+    }
+    fn run(&self, rt: &mut Runtime) {
+        let mut rep = StageReport {
+            name: self.name.to_string(),
+            rule: self.rule.to_string(),
+            ..Default::default()
+        };
+        let viol = (self.body)(rt, &mut rep);
+        for (case, message) in viol.into_iter().take(8) {
+            rt.violations.push(Violation {
+                stage: self.name.to_string(),
+                case,
+                message,
+                worker: 0,
+            });
+        }
+        rt.stages.push(rep);
+    }
+    fn replay(&self, rt: &Runtime, _case: Value) -> Outcome {
+        // the domain is finite and cheap: re-enumerate it
+        let mut rep = StageReport::default();
+        let viol = (self.body)(rt, &mut rep);
+        match viol.into_iter().next() {
+            Some((case, message)) => Outcome::Fail(format!("{message} case={case}")),
+            None => pass(true, 0, vec![]),
+        }
+    }
+}
+
+pub fn enum_stage<F>(name: &'static str, rule: &'static str, body: F) -> Box<dyn Stage>
+where
+    F: Fn(&Runtime, &mut StageReport) -> Vec<(Value, String)> + Sync + 'static,
+{
+    Box::new(EnumStage {
+        name,
+        rule,
+        body: Box::new(body),
+    })
+}
